@@ -70,7 +70,17 @@ def main():
                 print(f"SKIP {m['name']}: anchor occurs {orig.count(m['old'])}x")
                 bad += 1
                 continue
-            open(p, "w").write(orig.replace(m["old"], m["new"]))
+            mutated = orig.replace(m["old"], m["new"])
+            for o2, n2 in m.get("also", []):        # further cooperating edits in the same file, applied to the already edited text
+                if mutated.count(o2) != 1:
+                    print(f"SKIP {m['name']}: second anchor occurs {mutated.count(o2)}x")
+                    bad += 1
+                    mutated = None
+                    break
+                mutated = mutated.replace(o2, n2)
+            if mutated is None:
+                continue
+            open(p, "w").write(mutated)
             env = dict(os.environ, VERIF_REPO=dst, VERIF_NO_REPLAY_SEARCH="1")
             cmd = [os.path.join(ROOT, "check"), m["prop"], "--no-evidence"]
             for u in m.get("units", []):
